@@ -44,9 +44,9 @@ from itertools import product
 import time
 
 B1, B2 = ("BV", 1), ("BV", 2)
-QDOMS = [{INT: (0,), REAL: (Fraction(0),)},
-         {INT: (0, 1), REAL: (Fraction(0), Fraction(1, 2))},
-         {INT: (-1, 0, 2), REAL: (Fraction(-1), Fraction(0), Fraction(2))}]
+QDOMS = [{INT: (0,), REAL: (Fraction(0),), STRING: ("a",)},
+         {INT: (0, 1), REAL: (Fraction(0), Fraction(1, 2)), STRING: ("", "b")},
+         {INT: (-1, 0, 2), REAL: (Fraction(-1), Fraction(0), Fraction(2)), STRING: ("a", "b", "ab")}]
 
 MINIMISE_CAP = 60
 BOOL_PROCS = ("nnf", "prenex", "aig", "conj", "disj", "shannon", "selfsub")
@@ -190,7 +190,7 @@ class Evaluator(object):
         self.sort, ff = compile_term(f, cmemo)
         self.syms = free_symbols(f)
         self.bound = bound_variable_sorts(f)
-        need_q = any(s in (INT, REAL) for s in self.bound)
+        need_q = any(s in (INT, REAL, STRING) for s in self.bound)
         self.Is = list(interps(self.syms, dom, qdoms if need_q else None))
         self.vals = []
         for I in self.Is:
@@ -866,6 +866,10 @@ def toplevel(theory, nsyms=2):
             vs = [p.sym(n, REAL) for n in ["s", "t", "o"][:nsyms]]
             cs = [m.Real(0), m.Real(Fraction(1, 2))]
             rel = m.LE
+        elif theory == "str":
+            vs = [p.sym(n, STRING) for n in ["s1", "s2", "s3"][:nsyms]]
+            cs = [m.String("a"), m.String("b")]
+            rel = m.StrPrefixOf
         elif theory == "bv1":
             vs = [p.sym(n, B1) for n in ["u", "v", "g"][:nsyms]]
             cs = [m.BV(0, 1), m.BV(1, 1)]
@@ -997,8 +1001,8 @@ def parts(ctx):
       procs=("conj", "disj"), max_new=1 if q else 2)
     # ---- top-level equalities ------------------------------------------------------------
     PP = ("propagate", "propagate-nosimp")
-    DP = {INT: (0, 1, 2), REAL: (Fraction(0), Fraction(1, 2), Fraction(1))}
-    for th in ("int", "bv1", "bv2", "real"):
+    DP = {INT: (0, 1, 2), REAL: (Fraction(0), Fraction(1, 2), Fraction(1)), STRING: ("", "a", "b", "ab")}
+    for th in ("int", "bv1", "bv2", "real", "str"):
         n3 = (not q) and th in ("int", "bv1")
         # all pairs and triples of conjunct candidates
         A("toplevel-%s-d1" % th, toplevel(th, 3 if n3 else 2), 1, 16 if q else 48, procs=PP, dom=DP, qdoms=QDOMS)
